@@ -14,7 +14,11 @@
 // cross-checked against a freshly opened store.  In a third of the cases the steps are made by the node's OWN production
 // loop: the real Manager.AggregationLoop (normal / lazy) runs under virtual time and each of its rounds consumes the next
 // step item (harness/producer/loop.go); the oracle then also requires that a round answered by a sequencer fault of any
-// error class leaves the loop running.  Writes cases_C01.v for Check/ProducerLoopCheck.v and result.json.
+// error class leaves the loop running.  In the directly driven cases the PROCESS also DIES inside production steps (after
+// any number of the step's atomic datastore writes, mostly between the state write and the store-height write of a commit)
+// and the node is started again on what is on disk (Props/C01.v (4'')); and the sequencing layer also hands out batches
+// whose timestamp was never set (the zero time.Time) or lies before 1970.
+// Writes cases_C01.v for Check/ProducerLoopCheck.v and result.json.
 package c01
 
 import (
@@ -96,11 +100,45 @@ func gen(r *rand.Rand, tier string, c int, _ int64) (producer.Cfg, []producer.It
 			}
 			it.Ts = cur + d
 			regressed = d < 0 && it.Seq == "batch" && len(it.Txs) > 0
-			if it.Seq == "batch" {
+			// an unusual VALUE from the sequencing layer: a response whose Timestamp was never set (the zero time.Time,
+			// year 1: outside what UnixNano can represent) or that lies before 1970-01-01 (the last millisecond of 1969,
+			// some day of the 1960s, the 19th century) - for a node whose chain started after 1970 just another batch
+			// older than the last block.  The generator's own clock is not moved by it.
+			if y := r.Intn(100); y < 5 {
+				switch r.Intn(4) {
+				case 0, 1:
+					it.ZeroTs, it.Ts = true, producer.ZeroTimeMs
+				case 2:
+					it.Ts = producer.EpochMs - 1 - int64(r.Intn(2))*int64(r.Intn(300_000_000_000))
+				default:
+					it.Ts = producer.EpochMs - 2_000_000_000_000 - int64(r.Intn(1_000_000_000))
+				}
+				regressed = it.Seq == "batch" && len(it.Txs) > 0
+			} else if it.Seq == "batch" {
 				cur = it.Ts
 			}
 		}
 		it.ExecErr = r.Intn(100) < 7
+		// the PROCESS DIES inside this production step (kill, power loss, a failed write): after K of its atomic datastore
+		// writes - cursor, early block, final block, state, store height; a retried pending block has only the last three -
+		// the rest never reaches the datastore, the process is gone, and the node is started again on what is on disk
+		// (NewManager on the same database; that start-up may die as well).  Usually in a step whose responses are
+		// well-formed (it commits a block: K = 4 of a block built from a batch / K = 2 of a retried pending block falls
+		// BETWEEN the state write and the store-height write).  Steps driven directly only: under the node's own loop
+		// (Cfg.Loop) a crash is not scripted.
+		crashed := false
+		if !cfg.Loop && r.Intn(100) < 7 && lastBootWorks(h) {
+			crashed = true
+			it.Crash = true
+			it.K = []int{0, 1, 2, 2, 3, 4, 4, 4, 4, 5}[r.Intn(10)]
+			if r.Intn(100) < 75 {
+				it.Seq, it.ErrKind, it.ExecErr, it.ZeroTs = "batch", 0, false, false
+				if it.Ts < cur {
+					it.Ts = cur + int64(r.Intn(3000))
+				}
+				cur = it.Ts
+			}
+		}
 		it.Peek = r.Intn(100) < 25 // a client reads the store while the execution layer works
 		execOutcome(&it)
 		h = append(h, it)
@@ -109,6 +147,15 @@ func gen(r *rand.Rand, tier string, c int, _ int64) (producer.Cfg, []producer.It
 		// or not, the step returned).  Rarely after a step that went through, often after one that the
 		// execution layer failed (the early-saved pending block then lies above the recorded state), and
 		// sometimes twice in a row; the InitChain answer of a restart is only consulted when no state is stored.
+		if crashed {
+			if r.Intn(8) == 0 {
+				h = append(h, producer.Item{T: "boot", Crash: true, K: r.Intn(2)}) // the recovery start-up dies as well
+			}
+			b := producer.Item{T: "boot"}
+			execOutcome(&b)
+			h = append(h, b)
+			continue
+		}
 		p := 5
 		if it.ExecErr {
 			p = 45
@@ -131,8 +178,18 @@ func gen(r *rand.Rand, tier string, c int, _ int64) (producer.Cfg, []producer.It
 	return cfg, h
 }
 
+// the last start-up of the history so far was not scripted to fail (a process runs)
+func lastBootWorks(h []producer.Item) bool {
+	for i := len(h) - 1; i >= 0; i-- {
+		if h[i].T == "boot" {
+			return !h[i].InitErr && !h[i].Crash
+		}
+	}
+	return false
+}
+
 func TestVerif(t *testing.T) {
-	rule := "boot (5%: a first boot whose InitChain fails) then 1..40 (quick) / 1..120, every 10th case 1..300 (thorough) production steps; sequencer response 50% non-empty batch (1-5 txs of 1-64 bytes, 5% zero-length, 2.5% one 100 kB tx), 25% empty batch, 12% absent batch, 13% transient error of one of eight classes (plain; context.DeadlineExceeded bare / wrapped; context.Canceled wrapped / joined with another error; a wrapped ErrNoBatch; os.ErrDeadlineExceeded; io.ErrUnexpectedEOF) returned while the node's context is live; timestamp delta 15% regress / 10% equal / 75% advance by 1..5000 ms; 7% execution errors; after a step the node is restarted on the same database (boot item: NewManager + getInitialState, the running process is discarded; no crash inside a step) with probability 5%, 45% after a step whose execution was scripted to fail (the early-saved pending block then lies above the recorded state), a second restart follows with 30%, 8% of the restarts have a failing InitChain (consulted only when no state is stored); every successful InitChain / ExecuteTxs hands back a state root of length 0 (nil or empty) with probability 12% and a maxBytes value of 1<<20 (60%) or one of {0, 1, 10, 100, 100, 1000} (40%) - the sequencer double ignores the MaxBytes of the request, so later batches (1-5 txs of 1-64 bytes, the 100 kB tx) are routinely larger than the last reported value; in 25% of the steps a client of the node reads the height being produced and the one below through the node's store while the execution layer works (between the early and the final save); after EVERY item the blocks the node's store serves (same store object as the Manager's) at the tip, the pending height, the heights written and two older heights are checked and compared with a freshly opened store; initial height from {1,1,2,5,1000}; lazy/normal mode flag random; in 35% of the cases (and in two fixed corpus cases, normal and lazy, that go through all eight error classes) the steps are NOT driven by direct calls of publishBlockInternal but made by the node's own production loop: the real Manager.AggregationLoop (normal or lazy by the flag; start-up delay, block timer, lazy timer, NotifyNewTransactions before 40% of the rounds) is started after every successful NewManager under testing/synctest virtual time with the node's one-slot error channel, each of its calls of m.publishBlock runs the real publishBlockInternal on the next step item with the loop's own context; a round that hands an error back ends the loop (the node halts: the items up to the next boot find no process; in these cases a restart follows a round that probably failed with 80%), and per item 'the loop is still running' is observed next to everything else; non-trivial = at least 3 steps and one committed block; distinct = distinct (configuration, history)"
+	rule := "boot (5%: a first boot whose InitChain fails) then 1..40 (quick) / 1..120, every 10th case 1..300 (thorough) production steps; sequencer response 50% non-empty batch (1-5 txs of 1-64 bytes, 5% zero-length, 2.5% one 100 kB tx), 25% empty batch, 12% absent batch, 13% transient error of one of eight classes (plain; context.DeadlineExceeded bare / wrapped; context.Canceled wrapped / joined with another error; a wrapped ErrNoBatch; os.ErrDeadlineExceeded; io.ErrUnexpectedEOF) returned while the node's context is live; timestamp delta 15% regress / 10% equal / 75% advance by 1..5000 ms, and 5% of the responses that carry a timestamp carry an unusual VALUE instead: the zero time.Time of a response whose Timestamp field was never set (half of them), the last millisecond of 1969 or an instant up to ten years before 1970, or an instant of the year 1906 (all older than every block of a chain that started after 1970: the model's step skips / refuses them like any other regressed batch; the generator's clock is not moved by them); 7% execution errors; in the directly driven cases (65%) the PROCESS DIES inside 7% of the production steps issued while a process runs: after K of the step's atomic datastore writes (cursor, early block, final block, state, store height; a retried pending block has only the last three), K from {0,1,2,2,3,4,4,4,4,5}, the remaining writes never reach the datastore (crashds.FailAfter) and the process is discarded; three quarters of these steps are given well-formed responses first (they commit a block: K = 4 resp. K = 2 on a retried pending block cuts BETWEEN the state write and the store-height write); the node is then started again on the same database (in 1 of 8 cases that start-up dies as well, before or after its only write, and is repeated); the two fixed corpus cases crash-between-state-and-height-write and batch-with-unset-or-pre-1970-timestamp go through these classes on every run; after a step the node is restarted on the same database (boot item: NewManager + getInitialState, the running process is discarded; no crash inside a step) with probability 5%, 45% after a step whose execution was scripted to fail (the early-saved pending block then lies above the recorded state), a second restart follows with 30%, 8% of the restarts have a failing InitChain (consulted only when no state is stored); every successful InitChain / ExecuteTxs hands back a state root of length 0 (nil or empty) with probability 12% and a maxBytes value of 1<<20 (60%) or one of {0, 1, 10, 100, 100, 1000} (40%) - the sequencer double ignores the MaxBytes of the request, so later batches (1-5 txs of 1-64 bytes, the 100 kB tx) are routinely larger than the last reported value; in 25% of the steps a client of the node reads the height being produced and the one below through the node's store while the execution layer works (between the early and the final save); after EVERY item the blocks the node's store serves (same store object as the Manager's) at the tip, the pending height, the heights written and two older heights are checked and compared with a freshly opened store; initial height from {1,1,2,5,1000}; lazy/normal mode flag random; in 35% of the cases (and in two fixed corpus cases, normal and lazy, that go through all eight error classes) the steps are NOT driven by direct calls of publishBlockInternal but made by the node's own production loop: the real Manager.AggregationLoop (normal or lazy by the flag; start-up delay, block timer, lazy timer, NotifyNewTransactions before 40% of the rounds) is started after every successful NewManager under testing/synctest virtual time with the node's one-slot error channel, each of its calls of m.publishBlock runs the real publishBlockInternal on the next step item with the loop's own context; a round that hands an error back ends the loop (the node halts: the items up to the next boot find no process; in these cases a restart follows a round that probably failed with 80%), and per item 'the loop is still running' is observed next to everything else; non-trivial = at least 3 steps and one committed block; distinct = distinct (configuration, history)"
 	producer.MainOpts(t, "C01", gen, rule, func(cfg producer.Cfg, h []producer.Item, obs []producer.Obs) bool {
 		steps, commits := 0, 0
 		for i, it := range h {
